@@ -79,7 +79,7 @@ def rule_sys(repo, tier):
                      '-(J^T W) R, with R, J the outputs of normalize_RWJ; R enters b with odd parity, never A; J never enters b except '
                      'through J^T', floor=4)
     for cname in ('GaussNewton', 'LevenbergMarquardt'):
-        f = repo.func(OPT, cname + '.step')
+        f = __import__('sa.core', fromlist=['x']).ifexp_view(repo.func(OPT, cname + '.step'))
         pths = _dense_paths(f)
         if not pths:
             raise AnalysisError('C07.SYS: no dense path reaches the solver in %s.step' % cname)
